@@ -99,9 +99,13 @@ def taint_function(fi: FuncInfo):
                         ok = True
             if isinstance(par, ast.Compare) and any(isinstance(c, ast.Constant) and c.value is None for c in [par.left] + par.comparators):
                 ok = True
-            if isinstance(par, ast.Compare) and any(norm(c) == "self._cache" for c in par.comparators) and isinstance(par.ops[0], (ast.In, ast.NotIn)):
+            # a cache key: membership test in / subscript of the cache (possibly through a local alias `cache = self._cache`)
+            def is_cache(e):
+                from ..dataflow import expanded_text
+                return expanded_text(fn, e).split(".")[-1].lstrip("_").endswith("cache")
+            if isinstance(par, ast.Compare) and any(is_cache(c) for c in par.comparators) and isinstance(par.ops[0], (ast.In, ast.NotIn)):
                 ok = True
-            if isinstance(par, ast.Subscript) and fld == "slice" and norm(par.value) == "self._cache":
+            if isinstance(par, ast.Subscript) and fld == "slice" and is_cache(par.value):
                 ok = True
             if isinstance(par, ast.stmt):
                 if isinstance(par, ast.Assign):
